@@ -416,7 +416,38 @@ def regtable_task():
                         if not ok and len(bad) < 40:
                             bad.append(('%s (compress=%s)' % (form % (s1, s2), c), n, str(base[form]), str(out)))
     res['validated'] += npairs
-    res['samples'].append(dict(register_spellings=len(spellings), table_keys=len(got), mixed_spelling_programs=npairs))
+    # integers in decimal, hex or binary (finite table, compared concretely): every operand
+    # position that takes a number, negative values included
+    forms = [('addi x5, x6, %s', [-16, 12, 0, 2047, -2048]), ('beq x5, x6, %s', [-16, 12, 4094, -4096]),
+             ('bne x8, x0, %s', [-16, 254]), ('jal x1, %s', [-16, 2048, -1048576]), ('jal x0, %s', [-18, 2046]),
+             ('lui x5, %s', [1, 524287, 0xfffff]), ('slli x5, x6, %s', [3, 31]), ('lw x5, %s(x6)', [-8, 8]),
+             ('sw x5, %s(x6)', [-8, 2047]), ('db %s', [-5, 200]), ('dw %s', [-5, 0x20000000]), ('bytes %s 1', [-5, 200]),
+             ('shorts 1 %s', [-300, 60000]), ('align %s', [4, 8]), ('pack <h %s', [-300]), ('K = %s + 1\ndw K', [-7, 4096]),
+             ('csrrw x5, x6, %s', [0x305, -1]), ('c.addi x9, %s', [-5, 7]), ('c.j %s', [-6, 64]), ('li x5, %s', [-70000, 0xffffffff]),
+             ('fence %s 3', [15]), ('amoadd.w x5 x6 x7 %s 0', [1]), ('dw %%position(L, %s)\nL:', [-4, 0x8000000])]
+    nnum = 0
+    for form, values in forms:
+        for v in values:
+            neg = v < 0
+            a = abs(v)
+            sp = {'hex': ('-' if neg else '') + hex(a), 'bin': ('-' if neg else '') + bin(a), 'HEX': ('-' if neg else '') + '0x' + format(a, 'X')}
+            for c in (False, True):
+                try:
+                    base = bytes(real.assemble(form % str(v), compress=c))
+                except Exception as e:
+                    base = repr(e)[:80]
+                for kind, text in sp.items():
+                    try:
+                        out = bytes(real.assemble(form % text, compress=c))
+                    except Exception as e:
+                        out = repr(e)[:80]
+                    nnum += 1
+                    ok = out == base
+                    res.oblig(ok)
+                    if not ok and len(bad) < 40:
+                        bad.append(('%s (compress=%s)' % ((form % text).replace('\n', ' / '), c), v, str(base), str(out)))
+    res['validated'] += nnum
+    res['samples'].append(dict(register_spellings=len(spellings), table_keys=len(got), mixed_spelling_programs=npairs, numeral_spelling_programs=nnum))
     for b in bad[:5]:
         path = common.write_replay('C01', 'regtable_%s' % str(b[0]), dict(kind='regtable', entry=list(map(str, b))))
         res['violations'].append(dict(harness='regtable', kind='register-spelling', entry=list(map(str, b)), replay=path))
